@@ -25,7 +25,7 @@ ASSUMPTIONS = [
     "virtual clock: asyncio timers fire in deadline order exactly as on a real clock; wall time is only a watchdog",
     "one caller at a time (concurrency is C06)",
 ]
-MUST = ["truncated_answer", "stale_datagram_while_idle", "retry_branch", "max_retries_branch", "fragment_rearm", "immediate_retry_invalid", "tcp_connect_error",
+MUST = ["public_entry_points", "truncated_answer", "stale_datagram_while_idle", "retry_branch", "max_retries_branch", "fragment_rearm", "immediate_retry_invalid", "tcp_connect_error",
         "connect_hang_bounded", "silent_exact", "success", "rejected"]
 EXHAUSTIVE = {"quick": True, "thorough": True}
 
@@ -222,6 +222,9 @@ def plan(tier, seed):
         for ka in (False, True):
             specs.append({"mode": "truncation", "transport": transport, "framing": framing, "ka": ka, "T": 1,
                           "Rs": (0, 1) if tier == "quick" else (0, 1, 2, 3)})
+    # the same through the public entry points of the inverter object (read_sensor / write_setting 'modbus-N', send_command)
+    for transport, framing in (("udp", "rtu"), ("tcp", "tcp")):
+        specs.append({"mode": "entries", "transport": transport, "framing": framing, "T": 1, "R": 1 if tier == "quick" else 2})
     # TCP connect outcome scripts
     for ka in (False, True):
         specs.append({"mode": "connect", "ka": ka, "depth": 3 if tier == "quick" else 4})
@@ -273,6 +276,19 @@ def run_shard(spec):
                         sc["fullscript"] = [f"lone {k}-byte truncation x{reps}"] + tail
                         run_case(sc, part)
                         part.count("truncated_answer")
+    elif mode == "entries":
+        from .. import refcodec as rc_
+        cmd_ = {"kind": "read", "comm": 0xF7, "reg": 100, "count": 2}
+        pdu = rc_.tcp_request_pdu(cmd_)
+        raw = (rc_.rtu_request(cmd_) if spec["framing"] == "rtu" else b"\x00\x01\x00\x00" + len(pdu).to_bytes(2, "big") + pdu).hex()
+        for ka in (False, True):
+            for script in itertools.product(["drop", "now", "garbage", "badsum", "exc", "frag1", "close", "senderr", "reset"], repeat=spec["R"] + 1):
+                for step in (["rsensor", 100], ["wsetting", 100, -3], ["rawcmd", raw]):
+                    sc = scenario(spec["transport"], spec["framing"], ka, spec["T"], spec["R"], list(script))
+                    sc["tasks"] = [{"start": 0.0, "steps": [step]}]
+                    sc["fullscript"] = list(script) + [f"entry={step[0]}"]
+                    run_case(sc, part)
+                    part.count("public_entry_points")
     elif mode == "connect":
         for R in (0, 1, 2, 3):
             for depth in range(1, spec["depth"] + 1):
